@@ -46,6 +46,19 @@ pub fn run_enum(name: &str, args: &[String], w: &mut dyn Write) -> bool {
         out
       });
     }
+    // year and month pillar only (C08)
+    "c08.days" => {
+      let years: Vec<i64> = (1..=9999).filter(|y| year_selected(*y, args)).collect();
+      par_years(&years, w, |y| {
+        let mut out = String::new();
+        for m in 1i64..=12 { for d in 1i64..=31 {
+          if solar_day(y, m, d).is_none() { continue; }
+          let r = guard(|| { let s = go("scd", &[y, m, d])?; let f: Vec<&str> = s.split(' ').collect(); Some(format!("{} {}", f[0], f[1])) });
+          out.push_str(&format!("{} {} {} {}\n", y, m, d, r));
+        }}
+        out
+      });
+    }
     // every hour 0..23 (at minute 30) of 60 consecutive days: all (day pillar, hour) combinations
     "c09.hours" => {
       let mut d = solar_day(2024, 1, 1).unwrap();
